@@ -95,6 +95,12 @@ def run_case(lab: Lab, inp, base_values):
         t0 = time.time()
         while lab.cur is None and time.time() - t0 < 1:
             time.sleep(0.001)
+        if not first_is_rq:
+            # the A-ASSOCIATE-AC is on the wire before the provider notifies the Evt7 transition: wait for the notification,
+            # so that it is not mistaken for the reaction to the input
+            t0 = time.time()
+            while lab.cur is not None and not any(e == "Evt7" for _, e in lab.cur["fsm"]) and time.time() - t0 < 1:
+                time.sleep(0.001)
         mark = len(lab.cur["fsm"]) if lab.cur else 0
         npdu = len(lab.cur["pdus"]) if lab.cur else 0
         s.sendall(data)
@@ -168,7 +174,7 @@ def run(ctx: Ctx) -> int:
     bases = base_values(ctx)
     rng = random.Random(ctx.seed + 2)
     if not thorough:
-        keep = [x for x in inputs if x["conformant"] or x["op"] in ("pdulen", "pdutype", "itemlen", "extend") or not x["base"].startswith("rq")]
+        keep = [x for x in inputs if x["conformant"] or x["op"] in ("pdulen", "pdutype", "itemlen", "itemtype", "extend") or not x["base"].startswith("rq")]
         rest = [x for x in inputs if x not in keep]
         inputs = keep + rng.sample(rest, 900)
     nthreads = 8
